@@ -160,7 +160,7 @@ def step_raw(sys_, ev):
     if kind == 'jac_vec':
         return np.asarray(cg.jac_vec(pt, vec(NX, 3, seed)))
     if kind == 'jacobian_utpm':
-        return cg.jacobian(UTPM(PR.curve(seed + 7, 2, 1, pts=(ev[1], 2, 1)))).data
+        return cg.jacobian(UTPM(PR.curve(seed + 7, 2, 2, pts=(ev[1], 2, 1)))).data
     if kind == 'other':
         cg2, x2, y2 = PR.record(PR.SCENARIOS['view1'], np.array(PR.POINTS[2], dtype=float))
         g = cg2.gradient(np.array(PR.POINTS[1], dtype=float))
@@ -243,10 +243,15 @@ def reference(sys_before_input, prog, ev, seed, M):
         return xbar[0, 0]
     if kind == 'jacobian_utpm':
         Function.cgraph = None
-        cgf, xf, yf = PR.record(prog, np.array(PR.POINTS[REC_POINT], dtype=float))
-        r = cgf.jacobian(UTPM(PR.curve(seed + 7, 2, 1, pts=(ev[1], 2, 1)))).data.copy()
+        # one fresh single-use graph per direction (P = 1 each): the reference does not use the P > 1 code path
+        xc = PR.curve(seed + 7, 2, 2, pts=(ev[1], 2, 1))
+        parts = []
+        for p in range(xc.shape[1]):
+            Function.cgraph = None
+            cgf, xf, yf = PR.record(prog, np.array(PR.POINTS[REC_POINT], dtype=float))
+            parts.append(cgf.jacobian(UTPM(xc[:, p:p + 1].copy())).data.copy())
         Function.cgraph = None
-        return r
+        return np.concatenate(parts, axis=1)
     if kind == 'jac_vec':
         xin = np.zeros((2, 1, NX))
         xin[0, 0] = pt
